@@ -29,6 +29,7 @@ type c13Req struct {
 
 type c13Res struct {
 	ElapsedMs float64 `json:"elapsed_ms"`
+	JitterMs  float64 `json:"jitter_ms"` // worst lateness of a 5 ms sleep observed beside the call
 	Err       string  `json:"err"`
 	ErrText   string  `json:"errtext,omitempty"`
 	Datagrams int     `json:"datagrams"` // received by the server during the call under test
@@ -196,6 +197,27 @@ func runC13(js string) string {
 		}
 		done <- err
 	}()
+	// a metronome beside the call: how late does a 5 ms sleep wake up on this machine right now?  The library's own
+	// timers (deadlines, back-off) are late by as much when the machine is busy; the verdict allows for it
+	stopMetronome := make(chan struct{})
+	jitter := make(chan float64, 1)
+	go func() {
+		worst := 0.0
+		for {
+			select {
+			case <-stopMetronome:
+				jitter <- worst
+				return
+			default:
+			}
+			t0 := time.Now()
+			time.Sleep(5 * time.Millisecond)
+			if late := float64(time.Since(t0).Microseconds())/1000 - 5; late > worst {
+				worst = late
+			}
+		}
+	}()
+	defer func() {}()
 	watchdog := time.Duration(rq.DeadlineMs)*time.Millisecond + 4*time.Second
 	if rq.DeadlineMs <= 0 {
 		watchdog = 4 * time.Second
@@ -215,6 +237,8 @@ func runC13(js string) string {
 		res.ElapsedMs = float64(time.Since(start).Microseconds()) / 1000
 		res.Err = "hang"
 	}
+	close(stopMetronome)
+	res.JitterMs = <-jitter
 	fs.mu.Lock()
 	res.Datagrams = fs.n
 	fs.active = false
